@@ -154,7 +154,15 @@ def extremal_vectors(rnd, ver):
     return out
 
 
-ALPHABET = list("AVCPRUISNLHMXDEFOTWYGacvnlx:/. 0134_-") + ["\t", "\n", "é", "А", "{", "}", '"', "\\", "\x00", "\U0001F600"]
+ALPHABET = list("AVCPRUISNLHMXDEFOTWYGacvnlx:/. 0134_-+") + ["\t", "\n", "é", "А", "{", "}", '"', "\\", "\x00", "\U0001F600", "\u0661", "\uff10", "\uff11", "\u00a0", "\u2003"]
+
+
+# the version prefix contains a number: every leniency of a number parser is a way to accept what the grammar rejects
+NUMERIC_PREFIX_VARIANTS = [p % d for d in ("0", "1") for p in (
+    "CVSS:3.0%s/", "CVSS:3.+%s/", "CVSS:3.-%s/", "CVSS:3. %s/", "CVSS:3.%s /", "CVSS:3.0_%s/", "CVSS:3.%s.0/", "CVSS:3.%se0/", "CVSS:03.%s/",
+    "CVSS:3.%s\n/", "CVSS:3,%s/", "CVSS:3.%s//", "CVSS: 3.%s/", "CVSS:3 .%s/")] + [
+    "CVSS:3.\u0661/", "CVSS:3.\u0660/", "CVSS:3.\uff11/", "CVSS:3.\uff10/", "CVSS:\uff13.1/", "CVSS:3.\u0967/", "CVSS:3.\U0001d7cf/",
+    "CVSS:4.\uff10/", "CVSS:\uff14.0/", "CVSS:4.00/", "CVSS:4.+0/", "CVSS:4. 0/", "CVSS:04.0/", "CVSS:4.0 /", "CVSS:4/", "CVSS:4.0.0/"]
 
 
 def mutate(rnd, s, ver):
@@ -187,7 +195,8 @@ def mutate(rnd, s, ver):
         q = rnd.randrange(len(fields) + 1)
         return "/".join(fields[:q] + ["%s:%s" % (m, rnd.choice(VALS[other][m]))] + fields[q:])
     if k == 7:
-        pre = rnd.choice(["CVSS:3.2/", "cvss:3.1/", "CVSS:3.1", "CVSS:3.0/", "CVSS:3.1/", "CVSS:4.0/", "CVSS:4.1/", "CVSS:2.0/", "", "CVSS:3/", " CVSS:3.1/", "CVSS:31/"])
+        pre = rnd.choice(["CVSS:3.2/", "cvss:3.1/", "CVSS:3.1", "CVSS:3.0/", "CVSS:3.1/", "CVSS:4.0/", "CVSS:4.1/", "CVSS:2.0/", "", "CVSS:3/", " CVSS:3.1/", "CVSS:31/"]
+                         + NUMERIC_PREFIX_VARIANTS)
         body = s.split("/", 1)[1] if s.startswith("CVSS:") and "/" in s else s
         return pre + body
     if k == 8:
@@ -209,8 +218,19 @@ def mutate(rnd, s, ver):
     return s + rnd.choice(ALPHABET)
 
 
-def near_misses(rnd, n, depth2=0.2):
+def prefix_variants(rnd, per_variant=1):
+    """every numeric-leniency variant of the version prefix in front of valid bodies of the matching version"""
     out = []
+    for pre in NUMERIC_PREFIX_VARIANTS:
+        ver = "4" if ("4" in pre or "\uff14" in pre) else "3"
+        for _ in range(per_variant):
+            s = random_vector(rnd, ver)[3]
+            out.append(pre + s.split("/", 1)[1])
+    return out
+
+
+def near_misses(rnd, n, depth2=0.2):
+    out = prefix_variants(rnd)
     for _ in range(n):
         ver = rnd.choice("234")
         _, minor, g, s = random_vector(rnd, ver)
